@@ -43,7 +43,9 @@ func (k Keeper) AllocateRewards(ctx context.Context, reports []*types.Aggregate,
 		for _, r := range report.Reporters {
 			reporter, found := reportersMap[r.Reporter]
 			if found {
+				// a reporter in several aggregates is weighted by the sum of its powers
 				reporter.Reports++
+				reporter.Power += r.Power
 			} else {
 				reporter = ReportersReportCount{
 					Power:   r.Power,
@@ -76,7 +78,7 @@ func (k Keeper) AllocateRewards(ctx context.Context, reports []*types.Aggregate,
 	for i, reporter := range sortedReporters {
 		amount := CalculateRewardAmount(
 			reporter.data.Power,
-			reporter.data.Reports,
+			1, // Power already holds the sum over the reporter's reports
 			totalPower,
 			// reward is in loya
 			reward,
